@@ -101,13 +101,103 @@ def documents():
         ('set-tuple', {'s': {1, 2}, 't': (1, 'a'), 'y': b'by'}, {'s': {1, 3}, 't': (1, 'b', 2), 'y': b'bz'}),
         ('scalar', 'only a string', 'only one string'),
     ]
-    return {
+    out = {
         'json': [(n, u(a), u(b)) for n, a, b in j],
         'json5': [(n, u(a), u(b)) for n, a, b in j5],
         'yaml': [(n, u(a), u(b)) for n, a, b in y],
         'csv': [(n, u(a), u(b)) for n, a, b in c],
         'xml': [(n, u(a), u(b)) for n, a, b in x],
         'html': [(n, u(a), u(b)) for n, a, b in h],
+        'plist': [(n, plistlib.dumps(a, fmt=plistlib.FMT_XML, sort_keys=True),
+                   plistlib.dumps(b, fmt=plistlib.FMT_XML, sort_keys=True)) for n, a, b in pl],
+        'pickle': [(n, pickle.dumps(a, protocol=2), pickle.dumps(b, protocol=2)) for n, a, b in pk],
+    }
+    for it, sets in extreme_documents().items():
+        out[it] += sets
+    return out
+
+
+def _nest(depth, leaf):
+    v = leaf
+    for i in range(depth):
+        v = [v] if i % 2 else {'k': v}
+    return v
+
+
+def extreme_documents():
+    """Extreme scalars / shapes per input type, where the format can carry them (names start with 'x-').
+    In the different variant every extreme value is changed, inserted or removed, so that -d prints it."""
+    import csv
+    import io
+    import pickle
+    import plistlib
+    import xml.etree.ElementTree as ET
+    import yaml
+    inf, nan = float('inf'), float('nan')
+    long_s = 'y' * 2000
+    special = 'say "hi" <b>&amp;</b> it\'s\nline\ttab \\'
+    num_a = {'big': 2 ** 64, 'neg': -2 ** 63 - 1, 'huge': 10 ** 30, 'zero': 0, 'm1': -1,
+             'f': [1e308, 5e-324, -0.0, 1e22], 't': True, 'fl': False}
+    num_b = {'big': 2 ** 64 + 1, 'neg': -2 ** 63 - 2, 'huge': 10 ** 30 + 7, 'zero': -1, 'm1': 0,
+             'f': [1e308, 5e-324, 1e22, -0.0, 1.5e300], 't': False, 'ins': 2 ** 70}
+    str_a = {'e': '', 'q': special, 'na': 'Zo\u00eb \u4e2d', 'astral': '\U0001F600 x', 'ctl': 'a\x01b\x7f',
+             'l': ['a'], 'same': long_s}
+    str_b = {'e': 'x', 'q': special + '!', 'na': 'Zo\u00eb \u4e2e', 'astral': '\U0001F601 x', 'ctl': 'a\x02b\x7f',
+             'l': ['a', long_s, ''], 'same': long_s, 'e2': ''}
+    deep_a = {'d': _nest(30, [{}, [], None]), 'empty': {}, 'el': []}
+    deep_b = {'d': _nest(30, [[], {}, None, 1]), 'empty': [], 'el': {}}
+    nf_a = {'inf': inf, 'ninf': -inf, 'nan': nan, 'l': [inf]}
+    nf_b = {'inf': -inf, 'nan': nan, 'x': inf, 'l': [inf, nan, -inf]}
+    u = lambda s: s.encode('utf-8')  # noqa: E731
+    jd = lambda o: u(json.dumps(o, ensure_ascii=False))  # noqa: E731
+    yd = lambda o: u(yaml.safe_dump(o, allow_unicode=True, default_flow_style=False))  # noqa: E731
+    pairs = [('x-num', num_a, num_b), ('x-str', str_a, str_b), ('x-deep', deep_a, deep_b), ('x-nonfinite', nf_a, nf_b)]
+
+    def cs(rows):
+        f = io.StringIO()
+        csv.writer(f, lineterminator='\n').writerows(rows)
+        return u(f.getvalue())
+    csv_a = [['', 'id', special], ['Zo\u00eb \u4e2d', '\U0001F600', 'a\x01b\x7f'], ['18446744073709551616', '1e308', 'inf'], [long_s, 'z']]
+    csv_b = [['x', 'id', special + '!'], ['Zo\u00eb \u4e2e', '\U0001F601', 'a\x02b\x7f'], ['-9223372036854775809', 'nan', ''],
+             [long_s, 'z'], ['', long_s]]
+
+    def xel(tag, attrib=None, text=None, kids=()):
+        e = ET.Element(tag, attrib or {})
+        e.text = text
+        for k in kids:
+            e.append(k)
+        return e
+
+    def xs(e):
+        return ET.tostring(e, encoding='utf-8')
+    xstr_a = xel('r', {'q': special, 'na': 'Zo\u00eb', 'e': ''}, None,
+                 [xel('t', text=special), xel('e', text=''), xel('n\u00e9', text='\U0001F600 \u4e2d'), xel('same', text=long_s)])
+    xstr_b = xel('r', {'q': special + '!', 'na': 'Zo\u00ea', 'e2': ''}, None,
+                 [xel('t', text=special + '?'), xel('e'), xel('n\u00e9', text='\U0001F601 \u4e2e'), xel('same', text=long_s),
+                  xel('ins', text=long_s)])
+
+    def xdeep(n, leaf):
+        e = leaf
+        for _ in range(n):
+            e = xel('n', kids=[e])
+        return e
+    xdeep_a, xdeep_b = xdeep(30, xel('leaf')), xdeep(30, xel('leaf', {'a': ''}, 'x'))
+    # plist: integers only inside int64/uint64, no null, no control characters
+    pl_num_a = dict(num_a, big=2 ** 64 - 1, neg=-2 ** 63, huge=2 ** 63)
+    pl_num_b = dict(num_b, big=2 ** 64 - 2, neg=-2 ** 63 + 1, huge=2 ** 63 + 1, ins=2 ** 64 - 1)
+    pl_str_a, pl_str_b = dict(str_a, ctl='a b'), dict(str_b, ctl='a  b')
+    pl_deep_a = {'d': _nest(30, [{}, []]), 'empty': {}, 'el': []}
+    pl_deep_b = {'d': _nest(30, [[], {}, 1]), 'empty': [], 'el': {}}
+    pl = [('x-num', pl_num_a, pl_num_b), ('x-str', pl_str_a, pl_str_b), ('x-deep', pl_deep_a, pl_deep_b),
+          ('x-nonfinite', nf_a, nf_b)]
+    pk = pairs[:1] + [('x-str', dict(str_a, by=b'\xff\x00by'), dict(str_b, by=b'\xff\x01by'))] + pairs[2:]
+    return {
+        'json': [(n, jd(a), jd(b)) for n, a, b in pairs],
+        'json5': [(n, jd(a), jd(b)) for n, a, b in pairs],
+        'yaml': [(n, yd(a), yd(b)) for n, a, b in pairs],
+        'csv': [('x-str', cs(csv_a), cs(csv_b))],
+        'xml': [('x-str', xs(xstr_a), xs(xstr_b)), ('x-deep', xs(xdeep_a), xs(xdeep_b))],
+        'html': [('x-str', xs(xstr_a), xs(xstr_b)), ('x-deep', xs(xdeep_a), xs(xdeep_b))],
         'plist': [(n, plistlib.dumps(a, fmt=plistlib.FMT_XML, sort_keys=True),
                    plistlib.dumps(b, fmt=plistlib.FMT_XML, sort_keys=True)) for n, a, b in pl],
         'pickle': [(n, pickle.dumps(a, protocol=2), pickle.dumps(b, protocol=2)) for n, a, b in pk],
@@ -173,14 +263,16 @@ def impl_run(item):
     orig = gf.get_formatter
     orig_method = gf.Formatter.get_formatter
     max_events = item.get('max_events', 400)
-    current = {'haskids': False}
+    current = {'haskids': False, 'kind': ''}
+    leaf_type = graphtage.LeafNode
 
     def method(self, it_):
         current['haskids'] = isinstance(it_, gt.TreeNode) and len(it_.children()) > 0
+        current['kind'] = gen_dispatch.scalar_kind(it_.object) if isinstance(it_, leaf_type) else ''
         try:
             return orig_method(self, it_)
         finally:
-            current['haskids'] = False
+            current['haskids'], current['kind'] = False, ''
 
     def get_formatter(node_type, base_formatter=None):
         ret = orig(node_type, base_formatter)
@@ -202,13 +294,13 @@ def impl_run(item):
                     owner = k.__name__
                     break
             res = [_inst_path(ret.__self__), name, owner]
-        ev = [base, node_type.__name__, res, current['haskids']]
+        ev = [base, node_type.__name__, res, current['haskids'], current['kind']]
         key = json.dumps(ev)
         if key not in index:
             index[key] = len(events)
             events.append({'base': base, 'cls': node_type.__name__, 'mro': [c.__name__ for c in node_type.__mro__],
                            'res': res, 'is_edit': not issubclass(node_type, gt.TreeNode),
-                           'haskids': current['haskids'], 'n': 0})
+                           'haskids': current['haskids'], 'kind': current['kind'], 'n': 0})
         events[index[key]]['n'] += 1
         return ret
     gf.get_formatter = get_formatter
@@ -303,7 +395,7 @@ def event_term(e):
     else:
         res = f'(Some ({clist(e["res"][0])}, {cstr(e["res"][1])}, {cstr(e["res"][2] or "")}))'
     return (f'(Build_event {clist(e["base"])} {cstr(e["cls"])} {clist(e["mro"])} {gb(e["is_edit"])} '
-            f'{gb(e["haskids"])} {res})')
+            f'{gb(e["haskids"])} {cstr(e.get("kind", ""))} {res})')
 
 
 def case_term(c, r):
@@ -319,30 +411,41 @@ def case_term(c, r):
 # ------------------------------------------------------------------ product, driving, evaluation
 
 def product(tier, seed):
-    """The configuration product on the fixed documents. quick: everything on the first document of each type;
+    """The configuration product on the fixed documents.
+    quick: (a) the first ordinary document of each type, every (input, format, mode, equal/different) with 2 of its 6
+    (style, -j) variants; (b) every extreme document ('x-...') of each type under every format: full diff (equal or
+    different, rotating), -d on the different pair, and -e on one extreme document per (input, format), styles
+    rotating - so every (input type, output format) pair meets every extreme scalar class.
     thorough: everything on every document."""
     docs = documents()
+    rng = random.Random(seed)
+
+    def item(it, of, mode, style, j, diff, dn, a, b):
+        return {'it': it, 'of': of, 'mode': mode, 'style': style, 'j': j, 'diff': diff, 'doc': dn,
+                'a': a.hex(), 'b': (b if diff else a).hex()}
     items = []
     for it in TYPES:
-        sets = docs[it][:1] if tier == 'quick' else docs[it]
+        ordinary = [d for d in docs[it] if not d[0].startswith('x-')]
+        extreme = [d for d in docs[it] if d[0].startswith('x-')]
+        sets = ordinary[:1] if tier == 'quick' else docs[it]
         for dn, a, b in sets:
             for of in TYPES:
                 for mode in MODES:
-                    for style in STYLES:
-                        for j in (False, True):
-                            for diff in (False, True):
-                                items.append({'it': it, 'of': of, 'mode': mode, 'style': style, 'j': j, 'diff': diff,
-                                              'doc': dn, 'a': a.hex(), 'b': (b if diff else a).hex()})
-    rng = random.Random(seed)
-    if tier == 'quick':
-        # a rotating slice: every (input, format, mode, equal/different) keeps 2 of its 6 (style, -j) variants
-        by = {}
-        for c in items:
-            by.setdefault((c['it'], c['of'], c['mode'], c['diff'], c['doc']), []).append(c)
-        items = []
-        for k in sorted(by):
-            rng.shuffle(by[k])
-            items += by[k][:2]
+                    for diff in (False, True):
+                        variants = [(st, j) for st in STYLES for j in (False, True)]
+                        if tier == 'quick':
+                            rng.shuffle(variants)
+                            variants = variants[:2]
+                        for st, j in variants:
+                            items.append(item(it, of, mode, st, j, diff, dn, a, b))
+        if tier == 'quick':
+            for oi, of in enumerate(TYPES):
+                for di, (dn, a, b) in enumerate(extreme):
+                    st, j = rng.choice(STYLES), rng.random() < 0.5
+                    items.append(item(it, of, 'diff', st, j, (seed + oi + di) % 2 == 0, dn, a, b))
+                    items.append(item(it, of, 'd', rng.choice(STYLES), rng.random() < 0.5, True, dn, a, b))
+                    if di == (seed + oi) % len(extreme):
+                        items.append(item(it, of, 'e', rng.choice(STYLES), rng.random() < 0.5, True, dn, a, b))
     rng.shuffle(items)     # spread slow and failing runs over the workers
     return items
 
